@@ -272,9 +272,14 @@ func (a *Application) translationHandler(trans translator.RequestTranslator) htt
 			pr.requestLogger.Warn("No endpoints available for model",
 				"model", pr.model,
 				"translator", trans.Name())
+			// keep the status the routing strategy decided on (404 not found / 503 unavailable)
+			status := http.StatusNotFound
+			if rejected := routingRejectionStatus(pr); rejected != 0 {
+				status = rejected
+			}
 			a.writeTranslatorError(w, trans, pr,
 				fmt.Errorf("no healthy endpoints available for model: %s", pr.model),
-				http.StatusNotFound)
+				status)
 			a.recordTranslatorMetrics(trans, pr, constants.TranslatorModeTranslation, constants.FallbackReasonNoCompatibleEndpoints)
 			return
 		}
